@@ -75,7 +75,7 @@ class Ctx:
         self.eng.add(*cs)
 
     # ---- claims
-    def prove(self, label, claim, regions=None, note=None):
+    def prove(self, label, claim, regions=None, note=None, tactic=None):
         """claim must hold on this path.  regions: {name: z3 condition} of known findings that may
         be excluded when listed in known_findings.json for this obligation."""
         claim = sc.z(claim) if not isinstance(claim, bool) else claim
@@ -95,7 +95,7 @@ class Ctx:
                 excl.append(reg)
         if excl:
             claim = z3.Or(claim, *excl) if claim is not True else True
-        return self.eng.prove(label, claim, note)
+        return self.eng.prove(label, claim, note, tactic)
 
     def reachable(self, label, cond=True):
         return self.eng.reachable(label, cond)
